@@ -1,27 +1,12 @@
 (* Contracts/BuildProofs.v — the StateChanges that buildContractState produces for the element
-   diffs of a block are [changes_of]: the theorem-level blocks of Chain.v are what the contract
-   manager hands to the store. *)
-From Coq Require Import Lia.
+   diffs of a block are [changes_of] of a block of Chain.v, and when the diffs are what core's
+   MidState produces (one merged diff per contract id) that block is [block_ok] and carries for
+   every contract exactly the changes of its diff, in ApplyContracts order: the theorem-level
+   blocks are what the contract manager hands to the store. *)
+From Coq Require Import Lia ZifyBool ZifyN.
 From HostdBase Require Import Base.
 From HostdContracts Require Import Model Chain Build.
 Local Open Scope N_scope.
-
-(* the element diff behind one change of a block *)
-Definition diff1_of (p : N * pev1) : fdiff :=
-  match snd p with
-  | PForm1 => mkFD (fst p) true true 0 None false false false
-  | PRev1 o n => mkFD (fst p) true false o (Some n) false false false
-  | PSucc1 => mkFD (fst p) true false 0 None true true false
-  | PFail1 => mkFD (fst p) true false 0 None true false false
-  end.
-Definition diff2_of (p : N * pev2) : fdiff2 :=
-  match snd p with
-  | PForm2 r => mkFD2 (fst p) true true r None None
-  | PRev2 o n => mkFD2 (fst p) true false o (Some n) None
-  | PSucc2 => mkFD2 (fst p) true false 0 None (Some KProof)
-  | PRen2 => mkFD2 (fst p) true false 0 None (Some KRenewal)
-  | PFail2 => mkFD2 (fst p) true false 0 None (Some (KExpiration false))
-  end.
 
 Lemma foldo_app {A S} (f : S -> A -> option S) l1 l2 s :
   foldo f (l1 ++ l2) s = match foldo f l1 s with Some s' => foldo f l2 s' | None => None end.
@@ -33,70 +18,441 @@ Lemma changes_ext a b :
   cFail2 a = cFail2 b -> a = b.
 Proof. destruct a, b; cbn; intros; subst; reflexivity. Qed.
 
-Ltac seg l :=
-  induction l as [|x t IH]; intros ch; cbn [map foldo];
-  [ f_equal; apply changes_ext; cbn; rewrite ?app_nil_r; reflexivity
-  | cbn; rewrite IH; f_equal; apply changes_ext; cbn; rewrite <- ?app_assoc; reflexivity ].
+(** * the block behind a list of element diffs *)
 
-Lemma seg_conf1 r l : forall ch,
-  foldo (build1 r) (map diff1_of (map (fun id => (id, PForm1)) l)) ch =
-  Some (mkCh (cConf1 ch ++ l) (cRev1 ch) (cSucc1 ch) (cFail1 ch) (cConf2 ch) (cRev2 ch) (cSucc2 ch) (cRen2 ch) (cFail2 ch)).
-Proof. seg l. Qed.
-Lemma seg_rev1 r l : forall ch,
-  foldo (build1 r) (map diff1_of (map (fun t => (fst (fst t), PRev1 (snd (fst t)) (snd t))) l)) ch =
-  Some (mkCh (cConf1 ch) (cRev1 ch ++ map (rev_entry r) l) (cSucc1 ch) (cFail1 ch) (cConf2 ch) (cRev2 ch) (cSucc2 ch) (cRen2 ch) (cFail2 ch)).
-Proof. seg l. Qed.
-Lemma seg_succ1 r l : forall ch,
-  foldo (build1 r) (map diff1_of (map (fun id => (id, PSucc1)) l)) ch =
-  Some (mkCh (cConf1 ch) (cRev1 ch) (cSucc1 ch ++ l) (cFail1 ch) (cConf2 ch) (cRev2 ch) (cSucc2 ch) (cRen2 ch) (cFail2 ch)).
-Proof. seg l. Qed.
-Lemma seg_fail1 r l : forall ch,
-  foldo (build1 r) (map diff1_of (map (fun id => (id, PFail1)) l)) ch =
-  Some (mkCh (cConf1 ch) (cRev1 ch) (cSucc1 ch) (cFail1 ch ++ l) (cConf2 ch) (cRev2 ch) (cSucc2 ch) (cRen2 ch) (cFail2 ch)).
-Proof. seg l. Qed.
-Lemma seg_conf2 r l : forall ch,
-  foldo (build2 r) (map diff2_of (map (fun p => (fst p, PForm2 (snd p))) l)) ch =
-  Some (mkCh (cConf1 ch) (cRev1 ch) (cSucc1 ch) (cFail1 ch) (cConf2 ch ++ l) (cRev2 ch) (cSucc2 ch) (cRen2 ch) (cFail2 ch)).
+(* what one merged diff contributes to the lists of a block, mirroring buildContractState's
+   switch (an irrelevant diff contributes nothing; a created element is also its confirmed
+   revision, from 0) *)
+Definition p_conf1 (d : fdiff) : list N :=
+  if fd_relevant d && fd_created d then [fd_id d] else [].
+Definition p_rev1 (d : fdiff) : list (N * N * N) :=
+  if fd_relevant d then
+    (if fd_created d then [(fd_id d, 0, fd_cur d)]
+     else match fd_rev d with Some r => [(fd_id d, fd_cur d, r)] | None => [] end)
+  else [].
+Definition resolved1 (d : fdiff) : bool := fd_relevant d && negb (fd_created d) && fd_resolved d.
+Definition p_succ1 (d : fdiff) : list N :=
+  if resolved1 d && (fd_valid d || fd_missed_ge d) then [fd_id d] else [].
+Definition p_fail1 (d : fdiff) : list N :=
+  if resolved1 d && negb (fd_valid d || fd_missed_ge d) then [fd_id d] else [].
+
+Definition p_conf2 (d : fdiff2) : list (N * N) :=
+  if gd_relevant d && gd_created d then [(gd_id d, gd_cur d)] else [].
+Definition p_rev2 (d : fdiff2) : list (N * N * N) :=
+  if gd_relevant d && negb (gd_created d) then
+    match gd_rev d with Some r => [(gd_id d, gd_cur d, r)] | None => [] end
+  else [].
+Definition res2_of (d : fdiff2) : option resk :=
+  if gd_relevant d && negb (gd_created d) then gd_res d else None.
+Definition p_succ2 (d : fdiff2) : list N :=
+  match res2_of d with Some (KExpiration true) | Some KProof => [gd_id d] | _ => [] end.
+Definition p_ren2 (d : fdiff2) : list N :=
+  match res2_of d with Some KRenewal => [gd_id d] | _ => [] end.
+Definition p_fail2 (d : fdiff2) : list N :=
+  match res2_of d with Some (KExpiration false) => [gd_id d] | _ => [] end.
+
+Definition blk1 (b : block) (d : fdiff) : block :=
+  mkB (bidx b) (bConf1 b ++ p_conf1 d) (bRev1 b ++ p_rev1 d) (bSucc1 b ++ p_succ1 d) (bFail1 b ++ p_fail1 d)
+      (bConf2 b) (bRev2 b) (bSucc2 b) (bRen2 b) (bFail2 b).
+Definition blk2 (b : block) (d : fdiff2) : block :=
+  mkB (bidx b) (bConf1 b) (bRev1 b) (bSucc1 b) (bFail1 b)
+      (bConf2 b ++ p_conf2 d) (bRev2 b ++ p_rev2 d) (bSucc2 b ++ p_succ2 d) (bRen2 b ++ p_ren2 d)
+      (bFail2 b ++ p_fail2 d).
+
+Definition empty_block (i : idx) : block := mkB i [] [] [] [] [] [] [] [] [].
+
+(* the block of the diffs of one consensus update, in the order of the diffs *)
+Definition block_of_diffs (i : idx) (l1 : list fdiff) (l2 : list fdiff2) : block :=
+  fold_left blk2 l2 (fold_left blk1 l1 (empty_block i)).
+
+Ltac simp := cbn [cConf1 cRev1 cSucc1 cFail1 cConf2 cRev2 cSucc2 cRen2 cFail2 no_changes app
+                  bidx bConf1 bRev1 bSucc1 bFail1 bConf2 bRev2 bSucc2 bRen2 bFail2 changes_of
+                  add_conf1 add_rev1 add_succ1 add_fail1 add_conf2 add_rev2 add_succ2 add_ren2 add_fail2].
+
+Lemma build1_step revert b d ch :
+  build1 revert (changes_of revert b) d = Some ch -> ch = changes_of revert (blk1 b d).
 Proof.
-  induction l as [|x t IH]; intros ch; cbn [map foldo].
-  - f_equal; apply changes_ext; cbn; rewrite ?app_nil_r; reflexivity.
-  - cbn. rewrite IH. f_equal. apply changes_ext; cbn; rewrite <- ?app_assoc; try reflexivity.
-    destruct x; reflexivity.
+  unfold build1, build1_res, blk1, p_conf1, p_rev1, p_succ1, p_fail1, resolved1.
+  destruct d as [id rel cr cur rv res va mg]. cbn [fd_id fd_relevant fd_created fd_cur fd_rev fd_resolved fd_valid fd_missed_ge].
+  destruct rel, cr; cbn [negb andb]; try destruct rv as [r|]; try destruct res; cbn [negb andb];
+    try destruct (va || mg); cbn [negb andb];
+    intros H; inversion H; subst; clear H; apply changes_ext; simp;
+    rewrite ?map_app, ?app_nil_r; cbn [map rev_entry fst snd]; try reflexivity; destruct revert; reflexivity.
 Qed.
-Lemma seg_rev2 r l : forall ch,
-  foldo (build2 r) (map diff2_of (map (fun t => (fst (fst t), PRev2 (snd (fst t)) (snd t))) l)) ch =
-  Some (mkCh (cConf1 ch) (cRev1 ch) (cSucc1 ch) (cFail1 ch) (cConf2 ch) (cRev2 ch ++ map (rev_entry r) l) (cSucc2 ch) (cRen2 ch) (cFail2 ch)).
-Proof. seg l. Qed.
-Lemma seg_succ2 r l : forall ch,
-  foldo (build2 r) (map diff2_of (map (fun id => (id, PSucc2)) l)) ch =
-  Some (mkCh (cConf1 ch) (cRev1 ch) (cSucc1 ch) (cFail1 ch) (cConf2 ch) (cRev2 ch) (cSucc2 ch ++ l) (cRen2 ch) (cFail2 ch)).
-Proof. seg l. Qed.
-Lemma seg_ren2 r l : forall ch,
-  foldo (build2 r) (map diff2_of (map (fun id => (id, PRen2)) l)) ch =
-  Some (mkCh (cConf1 ch) (cRev1 ch) (cSucc1 ch) (cFail1 ch) (cConf2 ch) (cRev2 ch) (cSucc2 ch) (cRen2 ch ++ l) (cFail2 ch)).
-Proof. seg l. Qed.
-Lemma seg_fail2 r l : forall ch,
-  foldo (build2 r) (map diff2_of (map (fun id => (id, PFail2)) l)) ch =
-  Some (mkCh (cConf1 ch) (cRev1 ch) (cSucc1 ch) (cFail1 ch) (cConf2 ch) (cRev2 ch) (cSucc2 ch) (cRen2 ch) (cFail2 ch ++ l)).
-Proof. seg l. Qed.
 
-Ltac simp := cbn [cConf1 cRev1 cSucc1 cFail1 cConf2 cRev2 cSucc2 cRen2 cFail2 no_changes app].
-
-(* buildContractState on the diffs of a block gives the block's StateChanges, with the
-   previous revision numbers when reverting *)
-Lemma build_state_block (revert : bool) (b : block) :
-  build_state revert (map diff1_of (evs1 b)) (map diff2_of (evs2 b)) = Some (changes_of revert b).
+Lemma build2_step revert b d ch :
+  build2 revert (changes_of revert b) d = Some ch -> ch = changes_of revert (blk2 b d).
 Proof.
-  unfold build_state, evs1, evs2. rewrite !map_app.
-  rewrite foldo_app, seg_conf1; cbv beta iota; simp.
-  rewrite foldo_app, seg_rev1; cbv beta iota; simp.
-  rewrite foldo_app, seg_succ1; cbv beta iota; simp.
-  rewrite seg_fail1; cbv beta iota; simp.
-  rewrite foldo_app, seg_conf2; cbv beta iota; simp.
-  rewrite foldo_app, seg_rev2; cbv beta iota; simp.
-  rewrite foldo_app, seg_succ2; cbv beta iota; simp.
-  rewrite foldo_app, seg_ren2; cbv beta iota; simp.
-  rewrite seg_fail2; simp. reflexivity.
+  unfold build2, build2_res, blk2, p_conf2, p_rev2, p_succ2, p_ren2, p_fail2, res2_of.
+  destruct d as [id rel cr cur rv res]. cbn [gd_id gd_relevant gd_created gd_cur gd_rev gd_res].
+  destruct rel, cr; cbn [negb andb]; try destruct rv as [r|]; try destruct res as [[|[|]|]|]; cbn [negb andb];
+    intros H; inversion H; subst; clear H; apply changes_ext; simp;
+    rewrite ?map_app, ?app_nil_r; cbn [map rev_entry fst snd]; try reflexivity; destruct revert; reflexivity.
+Qed.
+
+Lemma build1_fold revert l : forall b ch,
+  foldo (build1 revert) l (changes_of revert b) = Some ch -> ch = changes_of revert (fold_left blk1 l b).
+Proof.
+  induction l as [|d t IH]; intros b ch; cbn [foldo fold_left]; [intros [= <-]; reflexivity|].
+  destruct (build1 revert (changes_of revert b) d) as [ch1|] eqn:E; [|discriminate].
+  apply build1_step in E. subst ch1. apply IH.
+Qed.
+Lemma build2_fold revert l : forall b ch,
+  foldo (build2 revert) l (changes_of revert b) = Some ch -> ch = changes_of revert (fold_left blk2 l b).
+Proof.
+  induction l as [|d t IH]; intros b ch; cbn [foldo fold_left]; [intros [= <-]; reflexivity|].
+  destruct (build2 revert (changes_of revert b) d) as [ch1|] eqn:E; [|discriminate].
+  apply build2_step in E. subst ch1. apply IH.
+Qed.
+
+(* whatever buildContractState returns for the diffs of an update is the StateChanges of a block,
+   with the previous revision numbers when reverting *)
+Lemma build_state_block (revert : bool) (i : idx) l1 l2 ch :
+  build_state revert l1 l2 = Some ch -> ch = changes_of revert (block_of_diffs i l1 l2).
+Proof.
+  unfold build_state, block_of_diffs. intros H.
+  destruct (foldo (build1 revert) l1 no_changes) as [ch1|] eqn:E1; [|discriminate].
+  change no_changes with (changes_of revert (empty_block i)) in E1.
+  apply build1_fold in E1. subst ch1. apply build2_fold in H. exact H.
+Qed.
+
+(* it fails only on a diff that is neither created, revised nor resolved *)
+Definition flagged1 (d : fdiff) : bool :=
+  negb (fd_relevant d) || fd_created d || (match fd_rev d with Some _ => true | None => false end) || fd_resolved d.
+Definition flagged2 (d : fdiff2) : bool :=
+  negb (gd_relevant d) || gd_created d || (match gd_rev d with Some _ => true | None => false end)
+  || (match gd_res d with Some _ => true | None => false end).
+
+Lemma build1_total revert l : forallb flagged1 l = true -> forall ch, exists ch', foldo (build1 revert) l ch = Some ch'.
+Proof.
+  induction l as [|d t IH]; cbn [forallb foldo]; intros H ch; [eauto|].
+  apply Bool.andb_true_iff in H. destruct H as [Hd Ht].
+  assert (exists c, build1 revert ch d = Some c) as [c Hc].
+  { unfold build1, flagged1 in *. destruct (fd_relevant d), (fd_created d), (fd_rev d), (fd_resolved d); cbn in *; eauto; discriminate. }
+  rewrite Hc. apply IH; exact Ht.
+Qed.
+Lemma build2_total revert l : forallb flagged2 l = true -> forall ch, exists ch', foldo (build2 revert) l ch = Some ch'.
+Proof.
+  induction l as [|d t IH]; cbn [forallb foldo]; intros H ch; [eauto|].
+  apply Bool.andb_true_iff in H. destruct H as [Hd Ht].
+  assert (exists c, build2 revert ch d = Some c) as [c Hc].
+  { unfold build2, flagged2 in *. destruct (gd_relevant d), (gd_created d), (gd_rev d), (gd_res d); cbn in *; eauto; discriminate. }
+  rewrite Hc. apply IH; exact Ht.
+Qed.
+Lemma build_state_total revert l1 l2 :
+  forallb flagged1 l1 = true -> forallb flagged2 l2 = true -> exists ch, build_state revert l1 l2 = Some ch.
+Proof.
+  intros H1 H2. unfold build_state. destruct (build1_total revert l1 H1 no_changes) as [c1 E1]. rewrite E1.
+  apply build2_total; exact H2.
+Qed.
+
+(** * merged diffs give [block_ok] blocks *)
+
+(* the changes of one merged diff, in the order ApplyContracts / RevertContracts meet them *)
+Definition dev1 (d : fdiff) : list pev1 :=
+  if negb (fd_relevant d) then []
+  else if fd_created d then [PForm1; PRev1 0 (fd_cur d)]
+  else (match fd_rev d with Some r => [PRev1 (fd_cur d) r] | None => [] end)
+       ++ (if fd_resolved d then [if fd_valid d || fd_missed_ge d then PSucc1 else PFail1] else []).
+Definition dev2 (d : fdiff2) : list pev2 :=
+  if negb (gd_relevant d) then []
+  else if gd_created d then [PForm2 (gd_cur d)]
+  else (match gd_rev d with Some r => [PRev2 (gd_cur d) r] | None => [] end)
+       ++ (match gd_res d with
+           | Some KRenewal => [PRen2]
+           | Some (KExpiration true) | Some KProof => [PSucc2]
+           | Some (KExpiration false) => [PFail2]
+           | None => []
+           end).
+
+Lemma blk1_fold l : forall b,
+  let b' := fold_left blk1 l b in
+  bidx b' = bidx b /\ bConf1 b' = bConf1 b ++ flat_map p_conf1 l /\ bRev1 b' = bRev1 b ++ flat_map p_rev1 l /\
+  bSucc1 b' = bSucc1 b ++ flat_map p_succ1 l /\ bFail1 b' = bFail1 b ++ flat_map p_fail1 l /\
+  bConf2 b' = bConf2 b /\ bRev2 b' = bRev2 b /\ bSucc2 b' = bSucc2 b /\ bRen2 b' = bRen2 b /\ bFail2 b' = bFail2 b.
+Proof.
+  induction l as [|d t IH]; intros b; cbn [fold_left flat_map]; [rewrite !app_nil_r; repeat split|].
+  destruct (IH (blk1 b d)) as (A0 & A1 & A2 & A3 & A4 & A5 & A6 & A7 & A8 & A9).
+  cbn zeta. rewrite A0, A1, A2, A3, A4, A5, A6, A7, A8, A9. cbn [blk1 bidx bConf1 bRev1 bSucc1 bFail1 bConf2 bRev2 bSucc2 bRen2 bFail2].
+  rewrite <- !app_assoc. repeat split.
+Qed.
+Lemma blk2_fold l : forall b,
+  let b' := fold_left blk2 l b in
+  bidx b' = bidx b /\ bConf1 b' = bConf1 b /\ bRev1 b' = bRev1 b /\ bSucc1 b' = bSucc1 b /\ bFail1 b' = bFail1 b /\
+  bConf2 b' = bConf2 b ++ flat_map p_conf2 l /\ bRev2 b' = bRev2 b ++ flat_map p_rev2 l /\
+  bSucc2 b' = bSucc2 b ++ flat_map p_succ2 l /\ bRen2 b' = bRen2 b ++ flat_map p_ren2 l /\
+  bFail2 b' = bFail2 b ++ flat_map p_fail2 l.
+Proof.
+  induction l as [|d t IH]; intros b; cbn [fold_left flat_map]; [rewrite !app_nil_r; repeat split|].
+  destruct (IH (blk2 b d)) as (A0 & A1 & A2 & A3 & A4 & A5 & A6 & A7 & A8 & A9).
+  cbn zeta. rewrite A0, A1, A2, A3, A4, A5, A6, A7, A8, A9. cbn [blk2 bidx bConf1 bRev1 bSucc1 bFail1 bConf2 bRev2 bSucc2 bRen2 bFail2].
+  rewrite <- !app_assoc. repeat split.
+Qed.
+
+(* selecting the entries of one contract from lists built diff by diff *)
+Section Select.
+  Variables (D X : Type) (key : D -> N) (kx : X -> N) (part : D -> list X).
+  Hypothesis Hpart : forall d x, In x (part d) -> kx x = key d.
+
+  Lemma filter_own d : filter (fun x => kx x =? key d) (part d) = part d.
+  Proof.
+    assert (H : forall l, (forall x, In x l -> kx x = key d) -> filter (fun x => kx x =? key d) l = l).
+    { induction l as [|x t IH]; cbn; [reflexivity|]. intros Hl.
+      rewrite (Hl x (or_introl eq_refl)), N.eqb_refl. f_equal. apply IH. intros; apply Hl; right; assumption. }
+    apply H. apply Hpart.
+  Qed.
+  Lemma filter_other d id : key d <> id -> filter (fun x => kx x =? id) (part d) = [].
+  Proof.
+    intros Hne.
+    assert (H : forall l, (forall x, In x l -> kx x = key d) -> filter (fun x => kx x =? id) l = []).
+    { induction l as [|x t IH]; cbn; [reflexivity|]. intros Hl.
+      rewrite (Hl x (or_introl eq_refl)). replace (key d =? id) with false by lia.
+      apply IH. intros; apply Hl; right; assumption. }
+    apply H. apply Hpart.
+  Qed.
+
+  Lemma select_absent l id : ~ In id (map key l) -> filter (fun x => kx x =? id) (flat_map part l) = [].
+  Proof.
+    induction l as [|d t IH]; cbn [flat_map map]; [reflexivity|]. intros H.
+    rewrite filter_app, filter_other, IH; [reflexivity| |]; intros E; apply H; [right; exact E|left; exact E].
+  Qed.
+  Lemma select_own l d : NoDup (map key l) -> In d l ->
+    filter (fun x => kx x =? key d) (flat_map part l) = part d.
+  Proof.
+    induction l as [|d0 t IH]; cbn [flat_map map]; [intros _ []|]. intros Hnd Hin.
+    inversion Hnd as [|? ? Hd0 Ht]; subst. rewrite filter_app. destruct Hin as [->|Hin].
+    - rewrite filter_own, select_absent by exact Hd0. apply app_nil_r.
+    - rewrite filter_other, IH by (try assumption; intros E; apply Hd0; rewrite E; apply in_map; exact Hin).
+      reflexivity.
+  Qed.
+End Select.
+
+Lemma map_flat_map {D X Y} (f : X -> Y) (part : D -> list X) l :
+  map f (flat_map part l) = flat_map (fun d => map f (part d)) l.
+Proof. induction l as [|d t IH]; cbn; [reflexivity|]. rewrite map_app, IH. reflexivity. Qed.
+
+Definition e_conf1 (d : fdiff) : list (N * pev1) := map (fun id => (id, PForm1)) (p_conf1 d).
+Definition e_rev1 (d : fdiff) : list (N * pev1) := map (fun t => (fst (fst t), PRev1 (snd (fst t)) (snd t))) (p_rev1 d).
+Definition e_succ1 (d : fdiff) : list (N * pev1) := map (fun id => (id, PSucc1)) (p_succ1 d).
+Definition e_fail1 (d : fdiff) : list (N * pev1) := map (fun id => (id, PFail1)) (p_fail1 d).
+Definition e_conf2 (d : fdiff2) : list (N * pev2) := map (fun p => (fst p, PForm2 (snd p))) (p_conf2 d).
+Definition e_rev2 (d : fdiff2) : list (N * pev2) := map (fun t => (fst (fst t), PRev2 (snd (fst t)) (snd t))) (p_rev2 d).
+Definition e_succ2 (d : fdiff2) : list (N * pev2) := map (fun id => (id, PSucc2)) (p_succ2 d).
+Definition e_ren2 (d : fdiff2) : list (N * pev2) := map (fun id => (id, PRen2)) (p_ren2 d).
+Definition e_fail2 (d : fdiff2) : list (N * pev2) := map (fun id => (id, PFail2)) (p_fail2 d).
+
+Lemma evs1_block_of i l1 l2 :
+  evs1 (block_of_diffs i l1 l2) =
+  flat_map e_conf1 l1 ++ flat_map e_rev1 l1 ++ flat_map e_succ1 l1 ++ flat_map e_fail1 l1.
+Proof.
+  unfold block_of_diffs, evs1.
+  destruct (blk2_fold l2 (fold_left blk1 l1 (empty_block i))) as (_ & A1 & A2 & A3 & A4 & _).
+  destruct (blk1_fold l1 (empty_block i)) as (_ & B1 & B2 & B3 & B4 & _).
+  cbn zeta in *. rewrite A1, A2, A3, A4, B1, B2, B3, B4. cbn [empty_block bConf1 bRev1 bSucc1 bFail1 app].
+  rewrite !map_flat_map. reflexivity.
+Qed.
+Lemma evs2_block_of i l1 l2 :
+  evs2 (block_of_diffs i l1 l2) =
+  flat_map e_conf2 l2 ++ flat_map e_rev2 l2 ++ flat_map e_succ2 l2 ++ flat_map e_ren2 l2 ++ flat_map e_fail2 l2.
+Proof.
+  unfold block_of_diffs, evs2.
+  destruct (blk2_fold l2 (fold_left blk1 l1 (empty_block i))) as (_ & _ & _ & _ & _ & A5 & A6 & A7 & A8 & A9).
+  destruct (blk1_fold l1 (empty_block i)) as (_ & _ & _ & _ & _ & B5 & B6 & B7 & B8 & B9).
+  cbn zeta in *. rewrite A5, A6, A7, A8, A9, B5, B6, B7, B8, B9. cbn [empty_block bConf2 bRev2 bSucc2 bRen2 bFail2 app].
+  rewrite !map_flat_map. reflexivity.
+Qed.
+
+Ltac keyed1 := intros d x; unfold e_conf1, e_rev1, e_succ1, e_fail1, p_conf1, p_rev1, p_succ1, p_fail1, resolved1;
+  destruct d as [id rel cr cur rv res va mg]; cbn [fd_id fd_relevant fd_created fd_cur fd_rev fd_resolved fd_valid fd_missed_ge];
+  destruct rel, cr; cbn [negb andb map In]; try destruct rv; try destruct res; cbn [negb andb map In];
+  try destruct (va || mg); cbn [negb andb map In]; intros H; try (destruct H as [<-|[]]; reflexivity); destruct H.
+Ltac keyed2 := intros d x; unfold e_conf2, e_rev2, e_succ2, e_ren2, e_fail2, p_conf2, p_rev2, p_succ2, p_ren2, p_fail2, res2_of;
+  destruct d as [id rel cr cur rv res]; cbn [gd_id gd_relevant gd_created gd_cur gd_rev gd_res];
+  destruct rel, cr; cbn [negb andb map In]; try destruct rv; try destruct res as [[|[|]|]|]; cbn [negb andb map In];
+  intros H; try (destruct H as [<-|[]]; reflexivity); destruct H.
+
+Lemma k_conf1 : forall d x, In x (e_conf1 d) -> fst x = fd_id d. Proof. keyed1. Qed.
+Lemma k_rev1 : forall d x, In x (e_rev1 d) -> fst x = fd_id d. Proof. keyed1. Qed.
+Lemma k_succ1 : forall d x, In x (e_succ1 d) -> fst x = fd_id d. Proof. keyed1. Qed.
+Lemma k_fail1 : forall d x, In x (e_fail1 d) -> fst x = fd_id d. Proof. keyed1. Qed.
+Lemma k_conf2 : forall d x, In x (e_conf2 d) -> fst x = gd_id d. Proof. keyed2. Qed.
+Lemma k_rev2 : forall d x, In x (e_rev2 d) -> fst x = gd_id d. Proof. keyed2. Qed.
+Lemma k_succ2 : forall d x, In x (e_succ2 d) -> fst x = gd_id d. Proof. keyed2. Qed.
+Lemma k_ren2 : forall d x, In x (e_ren2 d) -> fst x = gd_id d. Proof. keyed2. Qed.
+Lemma k_fail2 : forall d x, In x (e_fail2 d) -> fst x = gd_id d. Proof. keyed2. Qed.
+
+Lemma dev1_parts d : map snd (e_conf1 d ++ e_rev1 d ++ e_succ1 d ++ e_fail1 d) = dev1 d.
+Proof.
+  unfold dev1, e_conf1, e_rev1, e_succ1, e_fail1, p_conf1, p_rev1, p_succ1, p_fail1, resolved1.
+  destruct d as [id rel cr cur rv res va mg]. cbn [fd_id fd_relevant fd_created fd_cur fd_rev fd_resolved fd_valid fd_missed_ge].
+  destruct rel, cr; cbn [negb andb]; try destruct rv; try destruct res; cbn [negb andb];
+    try destruct (va || mg); reflexivity.
+Qed.
+Lemma dev2_parts d : map snd (e_conf2 d ++ e_rev2 d ++ e_succ2 d ++ e_ren2 d ++ e_fail2 d) = dev2 d.
+Proof.
+  unfold dev2, e_conf2, e_rev2, e_succ2, e_ren2, e_fail2, p_conf2, p_rev2, p_succ2, p_ren2, p_fail2, res2_of.
+  destruct d as [id rel cr cur rv res]. cbn [gd_id gd_relevant gd_created gd_cur gd_rev gd_res].
+  destruct rel, cr; cbn [negb andb]; try destruct rv; try destruct res as [[|[|]|]|]; reflexivity.
+Qed.
+
+(* core keeps one diff per contract id (MidState.elements): the block of such diffs carries for
+   every contract the changes of its own diff, and nothing for a contract without a diff *)
+Lemma evl1_block_of i l1 l2 d : NoDup (map fd_id l1) -> In d l1 ->
+  evl1_of (fd_id d) (block_of_diffs i l1 l2) = dev1 d.
+Proof.
+  intros Hnd Hin. unfold evl1_of. rewrite evs1_block_of, !filter_app.
+  rewrite (select_own _ _ fd_id fst e_conf1 k_conf1), (select_own _ _ fd_id fst e_rev1 k_rev1),
+          (select_own _ _ fd_id fst e_succ1 k_succ1), (select_own _ _ fd_id fst e_fail1 k_fail1) by assumption.
+  apply dev1_parts.
+Qed.
+Lemma evl1_block_of_absent i l1 l2 id : ~ In id (map fd_id l1) -> evl1_of id (block_of_diffs i l1 l2) = [].
+Proof.
+  intros H. unfold evl1_of. rewrite evs1_block_of, !filter_app.
+  rewrite (select_absent _ _ fd_id fst e_conf1 k_conf1), (select_absent _ _ fd_id fst e_rev1 k_rev1),
+          (select_absent _ _ fd_id fst e_succ1 k_succ1), (select_absent _ _ fd_id fst e_fail1 k_fail1) by assumption.
+  reflexivity.
+Qed.
+Lemma evl2_block_of i l1 l2 d : NoDup (map gd_id l2) -> In d l2 ->
+  evl2_of (gd_id d) (block_of_diffs i l1 l2) = dev2 d.
+Proof.
+  intros Hnd Hin. unfold evl2_of. rewrite evs2_block_of, !filter_app.
+  rewrite (select_own _ _ gd_id fst e_conf2 k_conf2), (select_own _ _ gd_id fst e_rev2 k_rev2),
+          (select_own _ _ gd_id fst e_succ2 k_succ2), (select_own _ _ gd_id fst e_ren2 k_ren2),
+          (select_own _ _ gd_id fst e_fail2 k_fail2) by assumption.
+  apply dev2_parts.
+Qed.
+Lemma evl2_block_of_absent i l1 l2 id : ~ In id (map gd_id l2) -> evl2_of id (block_of_diffs i l1 l2) = [].
+Proof.
+  intros H. unfold evl2_of. rewrite evs2_block_of, !filter_app.
+  rewrite (select_absent _ _ gd_id fst e_conf2 k_conf2), (select_absent _ _ gd_id fst e_rev2 k_rev2),
+          (select_absent _ _ gd_id fst e_succ2 k_succ2), (select_absent _ _ gd_id fst e_ren2 k_ren2),
+          (select_absent _ _ gd_id fst e_fail2 k_fail2) by assumption.
+  reflexivity.
+Qed.
+
+(* the merged diffs consensus can produce for a contract of the host (see [block_ok]): not both
+   revised and resolved for v1, not created together with anything else *)
+Definition dshape1 (d : fdiff) : bool :=
+  negb (fd_relevant d) || fd_created d
+  || negb ((match fd_rev d with Some _ => true | None => false end) && fd_resolved d).
+
+Lemma dev1_shape d : dshape1 d = true -> shape1 (dev1 d).
+Proof.
+  unfold dshape1, dev1. destruct d as [id rel cr cur rv res va mg]. cbn [fd_id fd_relevant fd_created fd_cur fd_rev fd_resolved fd_valid fd_missed_ge].
+  destruct rel, cr; cbn [negb orb andb]; try (intros _; exact I);
+    destruct rv, res; cbn; try discriminate; try (intros _; exact I); destruct (va || mg); intros _; exact I.
+Qed.
+Lemma dev2_shape d : shape2 (dev2 d).
+Proof.
+  unfold dev2. destruct d as [id rel cr cur rv res]. cbn [gd_id gd_relevant gd_created gd_cur gd_rev gd_res].
+  destruct rel, cr; cbn [negb]; try exact I; destruct rv, res as [[|[|]|]|]; cbn; auto.
+Qed.
+
+Lemma merged_diffs_block_ok i l1 l2 :
+  NoDup (map fd_id l1) -> NoDup (map gd_id l2) -> forallb dshape1 l1 = true ->
+  block_ok (block_of_diffs i l1 l2).
+Proof.
+  intros N1 N2 S1 id. split.
+  - destruct (in_dec N.eq_dec id (map fd_id l1)) as [Hin|Hn].
+    + apply in_map_iff in Hin. destruct Hin as (d & <- & Hd). rewrite evl1_block_of by assumption.
+      apply dev1_shape. rewrite forallb_forall in S1. apply S1; exact Hd.
+    + rewrite evl1_block_of_absent by exact Hn. exact I.
+  - destruct (in_dec N.eq_dec id (map gd_id l2)) as [Hin|Hn].
+    + apply in_map_iff in Hin. destruct Hin as (d & <- & Hd). rewrite evl2_block_of by assumption.
+      apply dev2_shape.
+    + rewrite evl2_block_of_absent by exact Hn. exact I.
+Qed.
+
+(** * the merged diffs of a block
+
+   The other direction: the element diffs core's MidState produces for the changes of a block —
+   one diff per contract id the block mentions, into which all its changes are merged. *)
+Definition diff1_of_evl (id : N) (l : list pev1) : fdiff :=
+  match l with
+  | PForm1 :: PRev1 _ k :: _ => mkFD id true true k None false false false
+  | PForm1 :: _ => mkFD id true true 0 None false false false
+  | [PRev1 o n] => mkFD id true false o (Some n) false false false
+  | [PSucc1] => mkFD id true false 0 None true true false
+  | [PFail1] => mkFD id true false 0 None true false false
+  | _ => mkFD id false false 0 None false false false
+  end.
+Definition resk_of (e : pev2) : option resk :=
+  match e with PSucc2 => Some KProof | PRen2 => Some KRenewal | PFail2 => Some (KExpiration false) | _ => None end.
+Definition diff2_of_evl (id : N) (l : list pev2) : fdiff2 :=
+  match l with
+  | PForm2 r :: _ => mkFD2 id true true r None None
+  | [PRev2 o n] => mkFD2 id true false o (Some n) None
+  | [PRev2 o n; e] => mkFD2 id true false o (Some n) (resk_of e)
+  | [e] => mkFD2 id true false 0 None (resk_of e)
+  | _ => mkFD2 id false false 0 None None
+  end.
+Definition diffs1_of (b : block) : list fdiff :=
+  map (fun id => diff1_of_evl id (evl1_of id b)) (nodup N.eq_dec (ids1_of b)).
+Definition diffs2_of (b : block) : list fdiff2 :=
+  map (fun id => diff2_of_evl id (evl2_of id b)) (nodup N.eq_dec (ids2_of b)).
+
+Lemma diff1_of_evl_id id l : fd_id (diff1_of_evl id l) = id.
+Proof. destruct l as [|[|o n| |] [|[|o2 n2| |] t]]; reflexivity. Qed.
+Lemma diff2_of_evl_id id l : gd_id (diff2_of_evl id l) = id.
+Proof. destruct l as [|[r|o n| | |] [|e2 [|e3 t]]]; reflexivity. Qed.
+
+Lemma dev1_diff1_of_evl id l : shape1 l -> l <> [PForm1] -> dev1 (diff1_of_evl id l) = l.
+Proof.
+  destruct l as [|[|o n| |] [|[|o2 n2| |] [|e3 t3]]]; cbn; try tauto; try congruence.
+  all: destruct o2; try tauto; reflexivity.
+Qed.
+Lemma dev2_diff2_of_evl id l : shape2 l -> dev2 (diff2_of_evl id l) = l.
+Proof.
+  destruct l as [|[r|o n| | |] [|[r2|o2 n2| | |] [|e3 t3]]]; cbn; try tauto; try discriminate; reflexivity.
+Qed.
+
+Lemma evl_absent_ids {E} (l : list (N * E)) id :
+  ~ In id (map fst l) -> map snd (filter (fun p => fst p =? id) l) = [].
+Proof.
+  induction l as [|p t IH]; cbn; [reflexivity|]. intros H.
+  destruct (fst p =? id) eqn:Ep; [exfalso; apply H; left; lia|]. apply IH; tauto.
+Qed.
+
+(* a [block_ok] block is, contract by contract, the block of its own merged diffs (a formation
+   is recorded with the revision of its created element, as the repaired buildContractState does) *)
+Lemma block_of_its_diffs b :
+  block_ok b -> (forall id, evl1_of id b <> [PForm1]) ->
+  let b' := block_of_diffs (bidx b) (diffs1_of b) (diffs2_of b) in
+  NoDup (map fd_id (diffs1_of b)) /\ NoDup (map gd_id (diffs2_of b)) /\
+  forallb dshape1 (diffs1_of b) = true /\
+  (forall id, evl1_of id b' = evl1_of id b) /\ (forall id, evl2_of id b' = evl2_of id b).
+Proof.
+  intros Hok Hbare b'.
+  assert (M1 : map fd_id (diffs1_of b) = nodup N.eq_dec (ids1_of b)).
+  { unfold diffs1_of. rewrite map_map. rewrite <- (map_id (nodup N.eq_dec (ids1_of b))) at 2.
+    apply map_ext. intros id. apply diff1_of_evl_id. }
+  assert (M2 : map gd_id (diffs2_of b) = nodup N.eq_dec (ids2_of b)).
+  { unfold diffs2_of. rewrite map_map. rewrite <- (map_id (nodup N.eq_dec (ids2_of b))) at 2.
+    apply map_ext. intros id. apply diff2_of_evl_id. }
+  assert (N1 : NoDup (map fd_id (diffs1_of b))) by (rewrite M1; apply NoDup_nodup).
+  assert (N2 : NoDup (map gd_id (diffs2_of b))) by (rewrite M2; apply NoDup_nodup).
+  split; [exact N1|]. split; [exact N2|]. split; [|split].
+  - apply forallb_forall. intros d Hd. unfold diffs1_of in Hd. apply in_map_iff in Hd.
+    destruct Hd as (id & <- & _). destruct (Hok id) as [Sh _]. specialize (Hbare id).
+    revert Sh Hbare. generalize (evl1_of id b). intros l.
+    destruct l as [|[|o n| |] [|[|o2 n2| |] [|e3 t3]]]; cbn; try tauto; try congruence; try reflexivity.
+    all: destruct o2; try tauto; reflexivity.
+  - intros id. destruct (in_dec N.eq_dec id (ids1_of b)) as [Hi|Hn].
+    + assert (Hd : In (diff1_of_evl id (evl1_of id b)) (diffs1_of b)).
+      { unfold diffs1_of. apply (in_map (fun id => diff1_of_evl id (evl1_of id b))). apply nodup_In. exact Hi. }
+      pose proof (evl1_block_of (bidx b) (diffs1_of b) (diffs2_of b) _ N1 Hd) as E.
+      rewrite diff1_of_evl_id in E. unfold b'. rewrite E.
+      apply dev1_diff1_of_evl; [apply Hok|apply Hbare].
+    + unfold b'. rewrite evl1_block_of_absent by (rewrite M1, nodup_In; exact Hn).
+      unfold evl1_of. rewrite evl_absent_ids; [reflexivity|exact Hn].
+  - intros id. destruct (in_dec N.eq_dec id (ids2_of b)) as [Hi|Hn].
+    + assert (Hd : In (diff2_of_evl id (evl2_of id b)) (diffs2_of b)).
+      { unfold diffs2_of. apply (in_map (fun id => diff2_of_evl id (evl2_of id b))). apply nodup_In. exact Hi. }
+      pose proof (evl2_block_of (bidx b) (diffs1_of b) (diffs2_of b) _ N2 Hd) as E.
+      rewrite diff2_of_evl_id in E. unfold b'. rewrite E.
+      apply dev2_diff2_of_evl. apply Hok.
+    + unfold b'. rewrite evl2_block_of_absent by (rewrite M2, nodup_In; exact Hn).
+      unfold evl2_of. rewrite evl_absent_ids; [reflexivity|exact Hn].
 Qed.
 
 (** * the store-level operation of a batch issues exactly the manager's calls *)
